@@ -196,8 +196,8 @@ func stripAbsent(v core.Val) core.Val {
 }
 
 func runC19(c *core.Ctx) error {
-	c.Rule = "random values of a catalogue struct covering bool / int64 / int8 / uint8 / uint64 / float64 / string / []byte fields, a slice, optional and nullable pointers, a nested tuple struct, an ordered-map struct, a keyed-union struct and a link; Wrap, build+Unwrap, Marshal/Unmarshal through dag-cbor and dag-json; integers at and beyond each field's width; histories of repeated and interleaved Wrap/Prototype calls with explicit schemas and (witness only) inferred ones; non-trivial = value with a non-empty list or ordered map; distinct by value"
-	c.Explanation = "theorems on the binding model: width_guard (an integer is stored iff it fits the field's width — the ideal; the code's wrap-around is the named deviation with its witness), binding_pure for histories with explicit schemas, binding_inferred_twice_witness"
+	c.Rule = "random values of a catalogue struct covering bool / int64 / int8 / uint8 / uint64 / float64 / string / []byte fields, a slice, optional and nullable pointers, a nested tuple struct, an ordered-map struct, a keyed-union struct and a link; Wrap, build+Unwrap, Marshal/Unmarshal through dag-cbor and dag-json; integers at and beyond each field's width; histories of repeated and interleaved Wrap/Prototype calls with explicit and with inferred schemas (four inferable Go types sharing member types) against the registry model; non-trivial = value with a non-empty list or ordered map; distinct by value"
+	c.Explanation = "theorems on the binding model: width_guard (an integer is stored iff it fits the field's width — the ideal; the code's wrap-around is the named deviation with its witness), binding_pure / binding_pure_history for every history of explicit and inferred bindings (the memoising registry), binding_inferred_twice_was_a_panic"
 	c.Assumptions = []string{"Go values are compared as data: nil and empty slices/maps identified, ordered-map key order canonicalised after a key-sorting codec", "custom converters are user code and not registered", "Go values that are not inhabitants of the schema (a union struct with no or several members set, Keys/Values out of step) are outside the quantifier"}
 	recT := c19TS.TypeByName("Rec")
 	// --- known-finding witnesses ---------------------------------------------------------------
@@ -218,11 +218,8 @@ func runC19(c *core.Ctx) error {
 		}
 		c.KnownWitness("C19/narrow-int-overflow-stored-silently", err == nil && !panicked, "300 assigned to an int8 field is accepted and stored as "+stored)
 	}
-	{
-		type c19InferTwice struct{ A string }
-		_, p1, _ := core.Catch(func() error { bindnode.Wrap(&c19InferTwice{A: "x"}, nil); return nil })
-		_, p2, pv := core.Catch(func() error { bindnode.Wrap(&c19InferTwice{A: "y"}, nil); return nil })
-		c.KnownWitness("C19/inferred-schema-twice-panics", !p1 && p2, fmt.Sprintf("second bindnode.Wrap(&T{}, nil) of the same named type: panic %v", pv))
+	if err := c19InferHistories(c); err != nil {
+		return err
 	}
 	// --- the main loop -------------------------------------------------------------------------
 	n := c.Pick(1500, 80000)
@@ -364,4 +361,122 @@ func runC19(c *core.Ctx) error {
 
 func replayC19(c *core.Ctx, rp core.Replay) error {
 	return fmt.Errorf("C19 cases replay by seed: VERIF_SEED=%d ./vcheck C19 %s (case: %s)", rp.Seed, rp.Tier, rp.Case)
+}
+
+
+// ---------------------------------------------------------------------------------------------
+// histories of bindings with inferred schemas
+
+type c19InfA struct {
+	A string
+	N int64
+}
+type c19InfB struct {
+	L []int64
+	S []string
+}
+type c19InfC struct {
+	In c19InfA
+	B  []byte
+	F  float64
+	Ok bool
+}
+type c19InfD struct {
+	L []int64 // shares the inferred List_Int with c19InfB
+	X c19InfA
+}
+
+var c19InfTS = schema.MustTypeSystem(
+	schema.SpawnString("String"), schema.SpawnInt("Int"),
+	schema.SpawnStruct("c19InfA", []schema.StructField{
+		schema.SpawnStructField("A", "String", false, false),
+		schema.SpawnStructField("N", "Int", false, false),
+	}, schema.SpawnStructRepresentationMap(nil)),
+)
+
+// c19InferHistories: random histories of Wrap / Prototype calls with a nil schema (inferred) and with an explicit one,
+// over Go types that share member types; every call must succeed and show the value; the per-call answers are compared
+// with the registry model (`bind.history`).
+func c19InferHistories(c *core.Ctx) error {
+	r := c.Rand.Fork()
+	mk := func(g int, r *core.Rand) (ptr interface{}, want string) {
+		a := c19InfA{A: string(core.GenStrBytes(r, core.GenCfg{ValidUTF8: true})), N: int64(r.Intn(1000)) - 500}
+		at := fmt.Sprintf("{ s41 %s s4e %s }", core.Str(a.A).Term(), core.Int(a.N).Term())
+		switch g {
+		case 0:
+			return &a, at
+		case 1:
+			v := c19InfB{L: []int64{1, int64(r.Intn(9))}, S: []string{"x"}}
+			return &v, fmt.Sprintf("{ s4c [ i1 i%d ] s53 [ s78 ] }", v.L[1])
+		case 2:
+			v := c19InfC{In: a, B: []byte{1, 2}, F: 1.5, Ok: true}
+			return &v, fmt.Sprintf("{ s496e %s s42 b0102 s46 %s s4f6b t }", at, core.Float(1.5).Term())
+		}
+		v := c19InfD{L: []int64{7}, X: a}
+		return &v, fmt.Sprintf("{ s4c [ i7 ] s58 %s }", at)
+	}
+	protoOf := func(g int) interface{} {
+		return []interface{}{(*c19InfA)(nil), (*c19InfB)(nil), (*c19InfC)(nil), (*c19InfD)(nil)}[g]
+	}
+	var lines, impls []string
+	for h := 0; h < c.Pick(30, 2000); h++ {
+		var toks, outs []string
+		for k := 2 + r.Intn(8); k > 0; k-- {
+			g := r.Intn(4)
+			explicit := g == 0 && r.Chance(1, 3)
+			viaProto := r.Bool()
+			ptr, want := mk(g, r)
+			var st schema.Type
+			tok := fmt.Sprintf("i%d", g)
+			if explicit {
+				st = c19InfTS.TypeByName("c19InfA")
+				tok = "e0:100"
+			}
+			toks = append(toks, tok)
+			out := fmt.Sprintf("ok:%d:%d", g, g)
+			if explicit {
+				out = "ok:0:100"
+			}
+			caseID := "bind.history " + strings.Join(toks, " ")
+			_, panicked, pv := core.Catch(func() error {
+				if viaProto {
+					p := bindnode.Prototype(protoOf(g), st)
+					nb := p.NewBuilder()
+					if err := datamodel.Copy(bindnode.Wrap(ptr, st), nb); err != nil {
+						return err
+					}
+					if got := termOf(nb.Build()); got != want {
+						c.Fail("C19/wrap-not-faithful", core.Replay{Kind: "oracle", Case: caseID, Impl: got, Expected: want, Detail: "node built through a prototype with an inferred schema"})
+					}
+					return nil
+				}
+				if got := termOf(bindnode.Wrap(ptr, st)); got != want {
+					c.Fail("C19/wrap-not-faithful", core.Replay{Kind: "oracle", Case: caseID, Impl: got, Expected: want, Detail: "Wrap with an inferred schema"})
+				}
+				return nil
+			})
+			if panicked {
+				out = "panic"
+				c.Fail("C19/repeated-binding-fails", core.Replay{Kind: "oracle", Case: caseID, Impl: fmt.Sprint(pv), Expected: "the call succeeds as it does alone in a fresh process",
+					Detail: "Wrap/Prototype with an inferred schema after earlier bindings"})
+			}
+			outs = append(outs, out)
+		}
+		line := "bind.history " + strings.Join(toks, " ")
+		lines = append(lines, line)
+		impls = append(impls, strings.Join(outs, " "))
+		c.Count(line, len(toks) >= 3)
+		c.Dist("history:inferred-and-explicit-bindings")
+	}
+	mouts, err := core.RunDriver(lines)
+	if err != nil {
+		return err
+	}
+	for i := range lines {
+		c.Trace(1)
+		if mouts[i] != impls[i] {
+			c.Fail("C19/corr-registry", core.Replay{Kind: "correspondence", Case: lines[i], Impl: impls[i], Model: mouts[i]})
+		}
+	}
+	return nil
 }
